@@ -390,6 +390,18 @@ func (e *Exec) forkBool(c *smt.Term) bool {
 	return e.forkOn(c, smt.Not(c))
 }
 
+// concretizeMax: case split on a value already known to lie in 0..max.
+func (e *Exec) concretizeMax(t *smt.Term, max int) int64 {
+	if v, ok := t.ConstS(); ok {
+		return v
+	}
+	ch := e.choose(max+1, func(i int) bool {
+		return e.feasible(smt.Eq(t, smt.BVC(t.Sort.W, uint64(i))))
+	})
+	e.pc = append(e.pc, smt.Eq(t, smt.BVC(t.Sort.W, uint64(ch))))
+	return int64(ch)
+}
+
 // concretize returns a concrete value for an integer term, forking over feasible values.
 func (e *Exec) concretize(t *smt.Term, what string) int64 {
 	if v, ok := t.ConstS(); ok {
@@ -1415,6 +1427,16 @@ func (e *Exec) indexAddr(fr *Frame, x *ssa.IndexAddr) Value {
 	e.panicCheck("index out of range", inRange(idx, len(cells)))
 	if len(cells) == 1 {
 		return &Pointer{C: cells[0]}
+	}
+	if len(cells) > 0 && cells[0].Sub == nil {
+		if _, scalar := e.load(cells[0]).(*smt.Term); !scalar {
+			// elements are pointers/slices/...: case split on the index
+			k := e.concretizeMax(idx, len(cells)-1)
+			return &Pointer{C: cells[k]}
+		}
+	} else if len(cells) > 0 {
+		k := e.concretizeMax(idx, len(cells)-1)
+		return &Pointer{C: cells[k]}
 	}
 	return &Pointer{Arr: cells, Idx: idx}
 }
